@@ -20,6 +20,8 @@ RULE = ("exhaustive product of __conform__ behaviour (11) x provided (2) x alter
         "(thorough: 4; quick: length <= 1 under a non-delegating custom __adapt__) over {None, value, raises}; interfacemethod inheritance chains up to length 3 with every "
         "combination of __adapt__ / other interfacemethod / nothing per level; natural declarations "
         "(implementer, directlyProvides, alsoProvides, sub-interface, class objects with unbound __conform__); "
+        "every way of attaching __conform__ (method, staticmethod, classmethod, function/lambda/partial/callable object "
+        "in the instance __dict__, __getattr__, __slots__) x generic or overridden attribute lookup x its behaviours; "
         "a real AdapterRegistry.adapter_hook installed in adapter_hooks; a random stream with longer chains and "
         "hooks raising AttributeError/TypeError.  Every case is non-trivial (it runs the call); distinct = "
         "distinct (conform kind, provided, hook kinds, alternate given, chain shape) signature")
@@ -35,6 +37,8 @@ CONFORMS = [["absent"], ["getraise", "attr", 100], ["getraise", "other", 100], [
             ["raise", "attr", 100], ["te0"]]
 CUSTOMS = [None, ["none"], ["value", 60], ["raise", "other", 200], ["delegate"]]
 ALTS = [None, 0, 1]
+ATTACH = ["method", "static", "classmethod", "inst_func", "inst_lambda", "inst_partial", "inst_callable",
+          "getattr", "slots"]
 
 
 def _hook(kind, i, ek="other"):
@@ -109,6 +113,25 @@ def generate(run, tier):
             for alt in ALTS:
                 for chain in ([], [_lvl(["delegate"], True)], [_lvl(["value", 60], False), _lvl(None, True)]):
                     cases.append(_case("natural", chain, ["te0"], provides, hs, alt, objkind="classobj"))
+    # 3b. HOW __conform__ is attached x whether the class overrides attribute lookup (watch) x what it
+    #     does: the property does not depend on the attachment, so the model ignores it
+    for attach in ATTACH:
+        for watch in (True, False):
+            for conform in (["retnone"], ["retvalue", 50], ["raise", "type", 100], ["raise", "other", 100],
+                            ["raise", "attr", 100], ["te0"], ["getnone"], ["absent"]):
+                if conform[0] in ("getnone", "absent") and attach not in ("method", "inst_func", "slots"):
+                    continue
+                for provides in (False, True):
+                    for alt in (None, 1):
+                        for hs in ([], [["none"], ["value", 11]], [["raise", "other", 0]]):
+                            cases.append(_case("attach", [], conform, provides, hs, alt, attach=attach, watch=watch,
+                                               te0how="arity"))
+    for attach in ("static", "inst_func", "inst_callable", "classmethod"):
+        for conform in (["raise", "type", 100], ["retvalue", 50], ["te0"]):
+            for chain in ([_lvl(["value", 60], False), _lvl(None, True)], [_lvl(["delegate"], False)]):
+                for watch in (True, False):
+                    cases.append(_case("attach", chain, conform, False, [["none"], ["value", 11]], 1,
+                                       attach=attach, watch=watch))
     # 4. a real registry's adapter_hook
     for req in ("none", "IReq", "ISubReq"):
         for reg in ("none", "IReq", "Interface", "named", "None"):
@@ -134,7 +157,9 @@ def generate(run, tier):
         for i in range(rng.choice([0, 1, 2, 3, 5, 8])):
             hs.append(_hook(rng.choice(["none", "none", "none", "value", "raise"]), i, rng.choice(eks)))
         cases.append(_case("rand", chain, conform, rng.random() < 0.3, hs, rng.choice(ALTS),
-                           how=rng.choice(["implementer", "directly", "also", "sub"]), kw=rng.random() < 0.3))
+                           how=rng.choice(["implementer", "directly", "also", "sub"]), kw=rng.random() < 0.3,
+                           attach=rng.choice(ATTACH), watch=rng.random() < 0.6,
+                           te0how=rng.choice(["partial", "arity"])))
     return cases
 
 
@@ -221,18 +246,22 @@ def coq_case(case, obs, mode):
         q = obs.get("q")
         hooks = ["HNone" if q is None else "(HValue %d)" % q] if (q is None or q >= 0) else ["(HRaise (mkExn EOther 999))"]
         o = "(mkObj CAbsent %s %s %s)" % (C.cbool(case["provides"]), C.clist(hooks), alt)
-        return "(%s, [], %s, (true, false, false, %s), (%s, %s), None)" % (
+        return "(%s, [], %s, (true, false, false, true, %s), (%s, %s), None)" % (
             uc, o, C.cbool(obs["ok"]), C.clist([_ev(e) for e in obs["log"]]), _outcome(obs["out"]))
     chain = C.clist(["(mkLvl %s %s)" % (_cbeh(l["adapt"]), C.cbool(l["other"])) for l in case["chain"]])
     o = "(mkObj %s %s %s %s)" % (_conform(case["conform"]), C.cbool(case["provides"]),
                                  C.clist([_hookt(h) for h in case["hooks"]]), alt)
-    vis_call = case.get("objkind") != "classobj"
+    classobj = case.get("objkind") == "classobj"
+    arity = (case["conform"][0] == "te0"
+             and (case.get("attach", "method") != "method" or case.get("te0how") == "arity"))
+    vis_call = not classobj and not arity          # the body of a call that fails at depth 0 never runs
+    watch = C.cbool(classobj or case.get("watch", True))   # reads of __conform__ / __providedBy__ logged
     if obs.get("aout") is None:
         adapt = "None"
     else:
         adapt = "(Some (%s, %s))" % (C.clist([_ev(e) for e in obs["alog"]]), _ares(obs["aout"]))
-    return "(%s, %s, %s, (%s, true, true, %s), (%s, %s), %s)" % (
-        uc, chain, o, C.cbool(vis_call), C.cbool(obs["ok"]),
+    return "(%s, %s, %s, (%s, true, %s, %s, %s), (%s, %s), %s)" % (
+        uc, chain, o, C.cbool(vis_call), watch, watch, C.cbool(obs["ok"]),
         C.clist([_ev(e) for e in obs["log"]]), _outcome(obs["out"]), adapt)
 
 
@@ -242,7 +271,7 @@ def classify(case, obs):
     return (case["conform"][0], tuple(case["conform"][1:2]), case["provides"], tuple(h[0] for h in case["hooks"]),
             case["alt"] is not None,
             tuple((None if l["adapt"] is None else l["adapt"][0], l["other"]) for l in case["chain"]),
-            case.get("objkind"))
+            case.get("objkind"), case.get("attach", "method"), case.get("watch", True))
 
 
 def kind(case, obs):
@@ -253,7 +282,7 @@ def finding_key(case, obs, mode):
     if case["kind"] == "registry":
         return "registry/%s/%s/%s" % (mode, case["req"], case["reg"])
     chain = "-".join(("A" if l["adapt"] else "") + ("O" if l["other"] else "") or "_" for l in case["chain"]) or "plain"
-    return "call/%s/%s/%s" % (mode, chain, case["conform"][0])
+    return "call/%s/%s/%s/%s" % (mode, chain, case["conform"][0], case.get("attach", "method"))
 
 
 def replay_text(case, obs, mode):
@@ -292,6 +321,39 @@ def replay_text(case, obs, mode):
               "    def __conform__(self, iface):", "        return 'never'", "obj = Obj"]
         if case["provides"]:
             L.append("directlyProvides(Obj, I)")
+    elif case.get("attach", "method") != "method" and c[0] in ("retnone", "retvalue", "raise", "te0"):
+        attach = case["attach"]
+        body = {"retnone": "log.append('conform'); return None", "retvalue": "log.append('conform'); return 'conform value'",
+                "raise": "log.append('conform'); raise %s('in __conform__')" % en.get(c[1] if len(c) > 1 else "", "ValueError"),
+                "te0": "return 'never entered: the call fails with a TypeError at depth 0 (wrong arity)'"}[c[0]]
+        params = "" if c[0] == "te0" else "iface"
+        L += ["def conform(%s):" % params, "    " + body, ""]
+        if attach in ("static", "classmethod"):
+            wrap = "staticmethod(conform)" if attach == "static" else "classmethod(lambda klass%s: conform(%s))" % (
+                ", iface" if params else "", params)
+            L += ["class Obj:", "    __conform__ = %s" % wrap]
+        elif attach == "getattr":
+            L += ["class Obj:", "    def __getattr__(self, name):", "        if name == '__conform__':", "            return conform",
+                  "        raise AttributeError(name)"]
+        elif attach == "slots":
+            L += ["class Obj:", "    __slots__ = ('__conform__',)"]
+        else:
+            L += ["class Obj:", "    pass"]
+        if not case.get("watch", True):
+            L.append("# (the driver's class keeps the generic attribute lookup: no __getattribute__ override)")
+        if case["provides"]:
+            L.append("implementer(I)(Obj)   # declared via: %s" % case.get("how", "implementer"))
+        L.append("obj = Obj()")
+        if attach in ("inst_func", "slots"):
+            L.append("obj.__conform__ = conform          # on the instance, nothing on the class")
+        elif attach == "inst_lambda":
+            L.append("obj.__conform__ = lambda %s: conform(%s)   # on the instance" % (params, params))
+        elif attach == "inst_partial":
+            L.append("obj.__conform__ = functools.partial(lambda tag%s: conform(%s), 'tag')   # on the instance"
+                     % (", iface" if params else "", params))
+        elif attach == "inst_callable":
+            L += ["class Conf:", "    def __call__(self%s):" % (", iface" if params else ""), "        return conform(%s)" % params,
+                  "obj.__conform__ = Conf()           # on the instance"]
     else:
         L.append("class Obj:")
         if c[0] == "getraise":
@@ -304,6 +366,9 @@ def replay_text(case, obs, mode):
             L += ["    def __conform__(self, iface):", "        log.append('conform'); return 'conform value'"]
         elif c[0] == "raise":
             L += ["    def __conform__(self, iface):", "        log.append('conform'); raise %s('in __conform__')" % en[c[1]]]
+        elif c[0] == "te0" and case.get("te0how") == "arity":
+            L += ["    def __conform__(self):   # wrong arity: conform(I) fails with a TypeError at depth 0",
+                  "        return 'never entered'"]
         elif c[0] == "te0":
             L += ["    class _L:", "        def __add__(self, other):", "            log.append('conform'); return NotImplemented",
                   "    __conform__ = functools.partial(operator.add, _L())   # TypeError at call depth 0"]
